@@ -54,6 +54,7 @@ func CheckC05(spec *vexec.CaseSpec, out *vexec.Outcome, controlled bool) (rs []R
 	type life struct {
 		launches, enters, exits, kills, beforeExec []int
 		killSigs                                   []string
+		ctxExit                                    int
 	}
 	L := map[string]*life{}
 	get := func(s string) *life {
@@ -84,6 +85,9 @@ func CheckC05(spec *vexec.CaseSpec, out *vexec.Outcome, controlled bool) (rs []R
 			l.enters = append(l.enters, e.Seq)
 		case e.Kind == "RUN_EXIT":
 			l.exits = append(l.exits, e.Seq)
+			if strings.HasPrefix(e.Info, "ctx") && l.ctxExit == 0 {
+				l.ctxExit = e.Seq // its command was ended by the DAG's own deadline
+			}
 		case e.Kind == "KILL":
 			l.kills = append(l.kills, e.Seq)
 			l.killSigs = append(l.killSigs, e.Info)
@@ -138,6 +142,17 @@ func CheckC05(spec *vexec.CaseSpec, out *vexec.Outcome, controlled bool) (rs []R
 			// the two differ by more than any fixed margin), and the scripted executor itself
 			// refuses to start on an expired context exactly as exec.CommandContext does. That no
 			// process is started after the timeout is decided by the real-process pass.
+			// What the event log does prove: a step whose command was ended BY the deadline (its
+			// Run() returned with the context's error) and that is launched again afterwards.
+			if l.ctxExit > 0 {
+				obligations++
+				for _, la := range l.launches {
+					if la > l.ctxExit {
+						add("relaunched-after-timeout", "step %s's command was ended by the DAG timeout (event %d) and the step was launched again afterwards (event %d)", name, l.ctxExit, la)
+						break
+					}
+				}
+			}
 			continue
 		}
 		// (e) repeating steps
